@@ -303,6 +303,7 @@ def run(chk):
     hunt2_rules(chk, repo, rq, red)
     hunt3_rules(chk, repo, rq, red)
     hunt5_rules(chk, repo, rq, red)
+    round7_rules(chk, repo, rq)
     inc = [s for s in ast.walk(red) if isinstance(s, ast.AugAssign) and norm.raw(s) == "redirects += 1"]
     if inc and tm and inc[0].lineno < tm[0].lineno:
         chk.ok("C17.limit", inc[0], "the counter is incremented before it is compared (at most max_redirects requests)")
@@ -361,6 +362,37 @@ def _root_text(e) -> str:
             e = e.value
         else:
             return norm.raw(e)
+
+
+def round7_rules(chk, repo, rq):
+    """Rule written after seeding round 7 (seed C17-7): the header set that the redirect loop edits in place belongs to this request.
+    _request() sets Authorization from URL credentials / netrc and removes credentials with popall() on a cross-origin hop - on the object
+    _prepare_headers() returned.  If that can be the session's default header set itself, a credential given for origin A stays in the
+    defaults and goes to an unrelated origin with a later request (and a cross-origin redirect deletes a default for good)."""
+    ph = repo.func("aiohttp/client.py", "ClientSession._prepare_headers")
+    mutated = any(isinstance(c.func, ast.Attribute) and norm.raw(c.func.value) == "headers" and c.func.attr in ("popall", "pop", "add", "update", "extend", "clear", "setdefault") for c in prog.calls_in(rq.node)) or any(
+        isinstance(a, ast.Assign) and isinstance(a.targets[0], ast.Subscript) and norm.raw(a.targets[0].value) == "headers" for a in ast.walk(rq.node))
+    hdefs = [v for _d, v in norm.fn_defs(rq.node).defs.get("headers", []) if v is not None]
+    from_prep = any("self._prepare_headers(" in norm.raw(v) for v in hdefs)
+    if not (mutated and from_prep):
+        chk.ok("C17.headers.fresh", rq, "_request() does not edit the result of _prepare_headers() in place")
+        return
+    copied = all("_prepare_headers(" not in norm.raw(v) or norm.raw(v).endswith(".copy()") or norm.raw(v).startswith("CIMultiDict(") for v in hdefs)
+    defs = norm.fn_defs(ph.node)
+    nret = 0
+    bad = None
+    for r in [r for r in ast.walk(ph.node) if isinstance(r, ast.Return) and r.value is not None]:
+        nret += 1
+        v = r.value
+        vals = [v] if not isinstance(v, ast.Name) else [x for _d, x in defs.defs.get(v.id, []) if x is not None]
+        fresh = bool(vals) and all(isinstance(x, ast.Call) and norm.raw(x.func) in ("CIMultiDict", "MultiDict", "CIMultiDict[str]") or (isinstance(x, ast.Call) and isinstance(x.func, ast.Attribute) and x.func.attr == "copy") for x in vals)
+        if not fresh:
+            bad = r
+    if copied or bad is None:
+        chk.ok("C17.headers.fresh", ph, f"_prepare_headers(): all {nret} return statements hand out a new CIMultiDict; what the redirect loop edits is this request's own header set")
+    else:
+        chk.violation("C17.headers.fresh", bad, K.short(bad), "return CIMultiDict(self._default_headers)",
+                      "_prepare_headers() can return the session's default header object itself, and _request() edits its result in place (headers[Authorization] = ..., headers.popall(...)): a header-less request to `http://user:pw@A/` leaves `Authorization: Basic ...` in the session defaults, and a later header-less request to an unrelated origin C carries the credentials that were given for A only; a cross-origin redirect deletes a session-level Authorization / Cookie default for good")
 
 
 def hunt5_rules(chk, repo, rq, red):
